@@ -242,7 +242,7 @@ def shard(ctx, n_cat, n_shell, n_stage, sub):
 
 
 def main(ctx):
-    a, b, c = ctx.pick((40, 6, 8), (1500, 150, 200))
+    a, b, c = ctx.pick((25, 4, 5), (1500, 150, 200))
     ctx.shards("shard", [{"n_cat": a, "n_shell": b, "n_stage": c, "sub": s} for s in range(16)], timeout=ctx.pick(600, 3400))
     ctx.require("scripts_executed", 300)
     ctx.require("wrapped_scripts_executed", 300)
